@@ -23,7 +23,8 @@ def key(d):
 
 def run(ck, tier):
     sd = vplib.subdir('c19')
-    cfgs = [('Matrix_dup.cfg', 'one row, <=3 values from 17 nested values: duplicates'),
+    cfgs = [('Matrix_dup.cfg', 'one row, <=3 values from 20 nested values: duplicates'),
+            ('Matrix_num.cfg', 'scalars that are different text but the same number (1, 1.0, 1e0), plain and nested: duplicates and exclude verdicts'),
             ('Matrix_rows2.cfg', 'two literal rows sharing values (duplicates are per row), include/exclude on both keys'),
             ('Matrix_exc_quick.cfg' if tier == 'quick' else 'Matrix_exc.cfg',
              'row x include variants x exclude entries: exclude verdicts')]
@@ -78,7 +79,7 @@ def run(ck, tier):
     for o in outs:
         if o['diags'] and len(ck.cov['samples']) < 4:
             ck.sample({'workflow': o['src'], 'observed': o['diags']})
-    ck.assumptions += ['value universe: 17 raw YAML values of depth <= 2 (scalars, expression scalars, sequences, mappings '
+    ck.assumptions += ['value universe: 20 raw YAML values of depth <= 2 (scalars, expression scalars, sequences, mappings '
                        'with subset-related key sets)',
                        'identical expression texts repeated in one row are outside the universe']
 
